@@ -12,7 +12,8 @@ use std::collections::{BTreeMap, BTreeSet, HashSet};
 use std::sync::atomic::{AtomicU64, Ordering};
 use std::sync::{Arc, Mutex};
 
-const SAL: [i32; 3] = [0, 5, -3];
+/// salience pool: three ordinary values and the two extremes (one add in ten draws an extreme)
+const SAL: [i32; 5] = [0, 5, -3, i32::MAX, i32::MIN];
 
 #[derive(Clone, Debug, Serialize, Deserialize, PartialEq)]
 pub enum KOp {
@@ -60,7 +61,7 @@ fn rname(n: u8) -> String {
 
 fn mk_rule(name: u8, sal: u8, uid: u32) -> Rule {
     let cond = ConditionGroup::single(Condition::new("F.x".to_string(), Operator::Equal, Value::Integer(1)));
-    Rule::new(rname(name), cond, vec![]).with_salience(SAL[sal as usize % 3]).with_description(format!("uid{uid}"))
+    Rule::new(rname(name), cond, vec![]).with_salience(SAL[sal as usize % 5]).with_description(format!("uid{uid}"))
 }
 
 fn view(r: &Rule) -> (String, i32, bool, String) {
@@ -108,7 +109,7 @@ impl Model {
                 if self.rules.iter().any(|r| r.0 == n) {
                     return Res::AddDup; // rejected without effect
                 }
-                self.rules.push((n, SAL[*sal as usize % 3], true, format!("uid{uid}")));
+                self.rules.push((n, SAL[*sal as usize % 5], true, format!("uid{uid}")));
                 self.rules.sort_by_key(|r| std::cmp::Reverse(r.1)); // stable: insertion order among equals
                 self.version += 1;
                 Res::AddOk
@@ -304,7 +305,7 @@ pub fn generate(rng: &mut Rng, thorough: bool) -> KbWorkload {
         match rng.weighted(&[28, 12, 8, 3, 10, 8, 6, 5, 4, 5, 6, 5]) {
             0 => {
                 uid += 1;
-                KOp::Add { name: rng.below(4) as u8, sal: rng.below(3) as u8, uid }
+                KOp::Add { name: rng.below(4) as u8, sal: if rng.chance(1, 10) { 3 + rng.below(2) as u8 } else { rng.below(3) as u8 }, uid }
             }
             1 => KOp::Remove { name: rng.below(4) as u8 },
             2 => KOp::SetEnabled { name: rng.below(4) as u8, on: rng.chance(1, 2) },
